@@ -488,7 +488,7 @@ def replace_at(n, path, fn):
 
 MUTATIONS = ['add_key', 'longer', 'shorter', 'rename_field', 'surplus_state',
              'permute', 'drop_state_key', 'reorder_state', 'reorder_state',
-             'wrong_index']
+             'wrong_index', 'surplus_state_fields']
 
 
 def state_replace_at(state, path, fn):
@@ -548,6 +548,9 @@ def mismatch(case, ctx):
       'rename_field': ('nt', 'dc'), 'surplus_state': ('dict', 'fdict'),
       'permute': ('dict', 'fdict', 'nt'),
       'reorder_state': ('dict', 'fdict', 'nt', 'dc', 'list', 'tuple'),
+      # field names must match exactly: a saved namedtuple / dataclass with
+      # more fields than the target is rejected (only dict keys may be extra)
+      'surplus_state_fields': ('nt', 'dc'),
       'wrong_index': ('list', 'tuple'),
   }[mut]
   cands = [(p, c) for p, c in conts if c['t'] in kinds]
@@ -600,6 +603,12 @@ def mismatch(case, ctx):
                     for idx, (kk, v) in enumerate(c['items'])]
       return c
     target_spec = replace_at(n, path, f)
+  elif mut == 'surplus_state_fields':
+    def f(c):
+      c = dict(c)
+      c['items'] = c['items'] + [['zz_surplus', extra_leaf]]
+      return c
+    saved_spec = replace_at(n, path, f)
   elif mut == 'surplus_state':
     def f(c):
       c = dict(c)
